@@ -46,7 +46,9 @@ def check_one(case, ctx, deep):
     if nontrivial:
         classes.append('canonicity_test_decides')
     ctx.case(plain, nontrivial, classes)
-    for _ in range(2 if deep else 1):
+    for rep_ in range(2 if deep else 1):
+        if rep_:
+            lib.interfere(case)   # other contexts created and queried in between (DESIGN.md 10.2)
         context = ctx.call('Context()', plain, lib.context_of, case)
         gens = [('fast_generate_from', lambda: list(algorithms.fast_generate_from(context))),
                 ('fcbo_dual', lambda: list(algorithms.fcbo_dual(context))),
